@@ -951,9 +951,11 @@ def oracle_ack_forcing(case, impl):
     injected = []
     lc = None
     big_rx = True
+    prev_established = False
     for ev in tr.events:
         if ev["op"] == "new":
             transport_ok, owed, injected = True, None, []
+            prev_established = False
             big_rx = int(ev["opts"].get("rx", 1 << 20)) >= 65536
             try:
                 lc = int(ev["out"].split(";lc=")[1].split(";")[0])
@@ -971,6 +973,7 @@ def oracle_ack_forcing(case, impl):
         established = fp.get("st", "").startswith(("Established", "FinWait"))
         if not ev["res"].startswith("pending") or not established:
             owed, injected = None, []
+            prev_established = False
             try:
                 lc = int(fp.get("lc", lc))
             except (TypeError, ValueError):
@@ -986,6 +989,14 @@ def oracle_ack_forcing(case, impl):
             elif 0 < off <= 8 and big_rx:
                 # (a packet beyond the reassembly window cannot be held and is ignored: not judged)
                 forced = f"out-of-order data packet seq {d['seq']} (next expected {(lc + 1) % 65536})"
+        elif len(injected) > 1 and lc is not None and prev_established and all(
+                d is not None and d["type"] in (0, 2) and (d["type"] == 2 or d["plen"] > 0) for d in injected):
+            # a batch of data / state packets processed by one poll: a packet that was a duplicate before the batch
+            # still is one whatever the others did, and its forced ACK must survive the rest of the batch
+            for d in injected:
+                if d["type"] == 0 and -64 <= _md(d["seq"], (lc + 1) % 65536) < 0:
+                    forced = f"duplicate data packet seq {d['seq']} (already consumed up to {lc}) in a batch of {len(injected)} packets"
+                    break
         injected = []
         if transport_ok:
             if (forced or owed) and not emitted:
@@ -1010,10 +1021,64 @@ def oracle_ack_forcing(case, impl):
             lc = int(fp.get("lc", lc))
         except (TypeError, ValueError):
             pass
+        prev_established = True
+    return hits
+
+
+def oracle_window_reopen(case, impl):
+    """C07/C02: after the receiver told its peer "window 0", the first read that takes bytes out of the reader's queue
+    wakes the connection task (so that the poll which follows announces the re-opened window without waiting for
+    any timer). Judged only on simple histories - working transport, Established, every injected data packet in
+    sequence and consumed - where a zero advertised window implies the reader's queue itself is what is full
+    (`Props/C02.flush_registers_when_window_low` then says the waker is registered)."""
+    tr = Trace(case, impl)
+    hits = []
+    clean, armed, expect = False, False, None
+    for ev in tr.events:
+        op = ev["op"]
+        if op == "new":
+            clean, armed = True, False
+            try:
+                expect = (int(ev["out"].split(";lc=")[1].split(";")[0]) + 1) % 65536
+            except (IndexError, ValueError):
+                clean = False
+        elif op == "tmode":
+            if ev["args"][:1] != ["ok"]:
+                clean = False
+        elif op in ("chanclose", "dropr", "cancel"):
+            clean = False
+        elif op == "inject":
+            d = ev.get("dgram")
+            if d is None:
+                clean = False
+            elif d["type"] == 2 and d["plen"] == 0:
+                pass
+            elif d["type"] == 0 and d["plen"] > 0 and d["seq"] == expect:
+                expect = (expect + 1) % 65536
+            else:
+                clean = False
+        elif op == "poll" and "fp" in ev:
+            fp = ev["fp"]
+            armed = False
+            try:
+                if int(fp.get("lc", -1)) != (expect - 1) % 65536:
+                    clean = False
+            except (TypeError, ValueError):
+                clean = False
+            if clean and ev["res"].startswith("pending") and fp.get("st", "") == "Established" and fp.get("lsw") == "0":
+                armed = True
+        elif op == "read":
+            if armed and ev["out"].startswith("data:") and len(ev["out"].split()[0]) > len("data:"):
+                armed = False
+                if " dw=1" not in ev["out"]:
+                    hits.append({"sig": {"oracle": "window_reopen", "what": "read_after_zero_window_wakes_nobody"},
+                                 "text": f"`{ev['line']}` took bytes out of the reader's queue after the endpoint had advertised a zero window, and did not wake the connection task: the re-opened window is not announced until something else polls the connection"})
+                    return hits
     return hits
 
 
 ALL = {
+    "window_reopen": oracle_window_reopen,
     "ack_forcing": oracle_ack_forcing,
     "eof_honest": oracle_eof_honest,
     "probe_discipline": oracle_probe_discipline,
